@@ -1237,10 +1237,10 @@ def strip_catalog_tags(text, tags):
     return text
 
 
-def observe(expr, db, names, with_sig=True):
+def observe(expr, db, names, with_sig=True, points=(0, 1)):
     """Everything the engine sees of the currently selected formula."""
     out = {}
-    for which in (0, 1):
+    for which in points:
         vals = expr.get_value_c(database=db, betas=point(names, which), prepare_ids=True)
         out[f'v{which}'] = [float(v) for v in vals]
     if with_sig:
@@ -2501,7 +2501,7 @@ def within_assumptions(op, terms_now):
     return not (new & listed) and not (new & present)
 
 
-def tree_observe(expr, db, names, probe, evaluate, tags=()):
+def tree_observe(expr, db, names, probe, evaluate, tags=(), points=(0, 1)):
     """Every observer of the elementary expressions of a formula + text, engine values, signature."""
     from biogeme.expressions import TypeOfElementaryExpression as T
     out = {}
@@ -2522,7 +2522,7 @@ def tree_observe(expr, db, names, probe, evaluate, tags=()):
                        id_status=[sorted(set(status[0])), sorted(set(status[1]))])
     out['str'] = strip_catalog_tags(str(expr), tags)
     if evaluate:
-        out.update(observe(expr, db, names))
+        out.update(observe(expr, db, names, points=points))
     return out
 
 
@@ -2601,7 +2601,8 @@ def _treeops_loop(task, st, space, rec, seed, depth, db, rows, columns, ids, all
                     except OutOfDomain:
                         want[f'v{which}'] = None
                         rec.count('treeops_value_out_of_domain')
-            kinds = '>'.join(op_label(o) if depth == 1 else op_label(o).split(':')[0] for o in resolved)
+            # finding key: the operation (depth 1) / 'history' (depth >= 2) + the group of observers; details go into the text
+            kinds = op_label(resolved[0]).split(':')[0] if depth == 1 else 'history-of-tree-operations'
             text = f'in {cid!r} (selected after {pred!r}): ' + ' ; '.join(
                 f'{o["op"]}({ {k: v for k, v in o.items() if k != "op"} })' for o in resolved)
 
@@ -2633,7 +2634,9 @@ def _treeops_loop(task, st, space, rec, seed, depth, db, rows, columns, ids, all
                         target = copy.deepcopy(real.expr)
                     for o in resolved:
                         real_treeop(target, o)
-                    got = tree_observe(target, db, names, probe, evaluate, real.catalog_tags())
+                    # engine values: at the initial values in every mode; at the second parameter point with 'fresh'
+                    got = tree_observe(target, db, names, probe, evaluate, real.catalog_tags(),
+                                       points=(0, 1) if mode == 'fresh' else (0,))
                     got['current'] = target.current_configuration().get_string_id()
                     return got
 
@@ -2663,7 +2666,7 @@ def _treeops_loop(task, st, space, rec, seed, depth, db, rows, columns, ids, all
                         real.check_state(cid, None, rec, lambda clause, what, e=None, o=None, witness=None:
                                          tvio(clause, 'selection', what, e, o), 0)
                     for field, group in TREE_FIELDS:
-                        if field not in hand_obs:
+                        if field not in hand_obs or field not in obs:
                             continue
                         if not _same(field, obs[field], hand_obs[field]):
                             bad.append(field)
@@ -2677,7 +2680,7 @@ def _treeops_loop(task, st, space, rec, seed, depth, db, rows, columns, ids, all
                                  f'reference model {want[field]!r}', want[field], obs[field])
                 rec.case(('tree', st['name'], cid, mode, si, depth) if changed or si == 0 else None,
                          (cid, mode, si, None if isinstance(obs, _Failed) else (obs['sets'], obs['beta_values'], obs['str'], obs.get('v0'))),
-                         outcome=('tree', kinds, not bad))
+                         outcome=('tree', op_label(resolved[0]) if depth == 1 else kinds, not bad))
     rec.sample(dict(part='treeops', structure=st['name'], configurations=task['cids'], depth=depth, histories=len(sequences),
                     cases=ncases))
 
